@@ -261,6 +261,7 @@ def observe(llw, name, text):
     e = probe(["export", gpath])[0]
     rec = {"name": name, "text": text, "sema_panic": "panic" in e}
     rec["accepted"] = ("panic" not in e) and not e.get("haserror", True)
+    rec["codes"] = [d["code"] for d in e.get("diags", [])] if "panic" not in e else []
     r = subprocess.run([llw, "-o", "out", "g.llw"], cwd=wd, stdout=subprocess.PIPE, stderr=subprocess.PIPE, text=True,
                        timeout=120)
     rec["exit"] = r.returncode
@@ -318,7 +319,10 @@ def judge(prop, tier):
     d = cache_dir("p3")
     lean = []
     for r in recs:
-        lean.append({k: r[k] for k in ("accepted", "written", "compiled", "graphok", "codegen_panic", "hasg", "g")})
+        x = {k: r[k] for k in ("accepted", "written", "compiled", "graphok", "codegen_panic", "hasg", "g")}
+        x["expect"] = r["name"].split("_")[1] if r["name"].startswith("ecode_") else ""
+        x["codes"] = r.get("codes", [])
+        lean.append(x)
     # binding self-test: an accepted grammar whose parser "did not compile"
     st = None
     for r in lean:
